@@ -517,7 +517,9 @@ func clientSide(t *testing.T, r *vp.Recorder, kt, topic string, ti int, disc, th
 	// over everything it knows about the publisher), in both orders
 	other := multiaddr.StringCast("/ip4/192.0.2.7/tcp/9999")
 	httpAddr := multiaddr.StringCast("/dns4/pub.test/tcp/80/http")
-	for si, shape := range [][]multiaddr.Multiaddr{{httpAddr, other}, {other, httpAddr}, {httpAddr, httpAddr}} {
+	// ... and for lists with a nil entry (an address the caller could not parse),
+	// which the library is written to tolerate (mautil.CleanPeerAddrInfo)
+	for si, shape := range [][]multiaddr.Multiaddr{{httpAddr, other}, {other, httpAddr}, {httpAddr, httpAddr}, {httpAddr, nil}, {nil, httpAddr}, {nil, httpAddr, nil, other}} {
 		for _, a := range append([]alteration{{"none", valid}}, alts...) {
 			key := fmt.Sprintf("%s|addr-list-shape%d|field|%s", base, si, a.name)
 			if !r.Mine(key) {
@@ -566,8 +568,15 @@ func throughSubscriber(t *testing.T, r *vp.Recorder, kt string) {
 	// ID field of the AddrInfo; "addr" = only as a /p2p/<id> component of the
 	// addresses (ID field empty), which the subscriber is documented to accept
 	// and from which it has to recover the expected signer.
-	for _, naming := range []string{"id", "addr"} {
+	// "id+nil+p2p-same" / "id+nil+p2p-other": the ID field names the publisher, the
+	// address list holds a nil entry (an address that did not parse) and the
+	// address carries a /p2p/ component naming ANOTHER identity (the one that
+	// signs the "other signer" alterations): the ID field is what was asked for.
+	for _, naming := range []string{"id", "addr", "id+nil+p2p-same", "id+nil+p2p-other"} {
 		for _, mode := range []string{"cold", "warm-replay", "warm-current"} {
+			if strings.HasPrefix(naming, "id+nil") && mode == "warm-current" {
+				continue
+			}
 			for _, disc := range []bool{true, false} {
 				for ti, topic := range []string{"", "/indexer/ingest/mainnet"} {
 					base := fmt.Sprintf("sub|%s|disc=%v|%s|topic%d", mode, disc, kt, ti)
@@ -578,6 +587,21 @@ func throughSubscriber(t *testing.T, r *vp.Recorder, kt string) {
 						ai := p.AddrInfo()
 						if naming == "id" {
 							return ai
+						}
+						if strings.HasPrefix(naming, "id+nil") {
+							otherType := "ed25519"
+							if kt == "ed25519" {
+								otherType = "secp256k1"
+							}
+							foreign := fixture.Key(kt, 1).ID
+							if naming == "id+nil+p2p-other" {
+								foreign = fixture.Key(otherType, 2).ID
+							}
+							out := peer.AddrInfo{ID: ai.ID, Addrs: []multiaddr.Multiaddr{nil}}
+							for _, a := range ai.Addrs {
+								out.Addrs = append(out.Addrs, multiaddr.Join(a, multiaddr.StringCast("/p2p/"+foreign.String())))
+							}
+							return out
 						}
 						out := peer.AddrInfo{}
 						for _, a := range ai.Addrs {
